@@ -222,19 +222,21 @@ Inductive verr :=
        (sty : option json)              (* e.schema.get("type") *)
        (sprops : list str)              (* list(e.schema.get("properties", {})) *)
        (spat : bool)                    (* "patternProperties" in e.schema *)
+       (spats : list str)               (* sorted(e.schema.get("patternProperties", {})): the order jsonschema prints them in *)
        (path : list pathpart)           (* e.path *)
        (message : str)                  (* e.message *)
        (ctx : list verr).               (* e.context *)
 
-Definition v_kind e := match e with VErr k _ _ _ _ _ _ _ _ => k end.
-Definition v_value e := match e with VErr _ vv _ _ _ _ _ _ _ => vv end.
-Definition v_inst e := match e with VErr _ _ i _ _ _ _ _ _ => i end.
-Definition v_sty e := match e with VErr _ _ _ t _ _ _ _ _ => t end.
-Definition v_sprops e := match e with VErr _ _ _ _ p _ _ _ _ => p end.
-Definition v_spat e := match e with VErr _ _ _ _ _ b _ _ _ => b end.
-Definition v_path e := match e with VErr _ _ _ _ _ _ p _ _ => p end.
-Definition v_message e := match e with VErr _ _ _ _ _ _ _ m _ => m end.
-Definition v_ctx e := match e with VErr _ _ _ _ _ _ _ _ c => c end.
+Definition v_kind e := match e with VErr k _ _ _ _ _ _ _ _ _ => k end.
+Definition v_value e := match e with VErr _ vv _ _ _ _ _ _ _ _ => vv end.
+Definition v_inst e := match e with VErr _ _ i _ _ _ _ _ _ _ => i end.
+Definition v_sty e := match e with VErr _ _ _ t _ _ _ _ _ _ => t end.
+Definition v_sprops e := match e with VErr _ _ _ _ p _ _ _ _ _ => p end.
+Definition v_spat e := match e with VErr _ _ _ _ _ b _ _ _ _ => b end.
+Definition v_spats e := match e with VErr _ _ _ _ _ _ ps _ _ _ => ps end.
+Definition v_path e := match e with VErr _ _ _ _ _ _ _ p _ _ => p end.
+Definition v_message e := match e with VErr _ _ _ _ _ _ _ _ m _ => m end.
+Definition v_ctx e := match e with VErr _ _ _ _ _ _ _ _ _ c => c end.
 
 (* ------------------------------------------------------------------------------------------------ library errors *)
 Inductive frag := Lit (s : string) | Dyn.         (* literal text of an f-string / a formatted value (any length) *)
@@ -307,6 +309,71 @@ Definition addl_message (extras : list str) : str := addl_prefix ++ join_reprs e
 Definition extras_of (inst : json) (sprops : list str) : list str :=
   match inst with JObj kvs => filter (fun k => negb (mem_str k sprops)) (keys kvs) | _ => [] end.
 
+(* ... and in general: instance keys that are neither declared properties nor matched by the joined patterns *)
+Definition extras_pat (pm : list str -> str -> bool) (inst : json) (sprops pats : list str) : list str :=
+  match inst with
+  | JObj kvs => filter (fun k => negb (mem_str k sprops) && negb (pat_matched pm pats k)) (keys kvs)
+  | _ => []
+  end.
+
+(* ------------------------------------------------------------------------------------------------
+   the message jsonschema builds for additionalProperties: false when the schema HAS patternProperties
+   (_keywords.additionalProperties):
+       verb = "does" if len(extras) == 1 else "do"
+       joined = ", ".join(repr(each) for each in sorted(extras))
+       patterns = ", ".join(repr(each) for each in sorted(schema["patternProperties"]))
+       f"{joined} {verb} not match any of the regexes: {patterns}"
+   Python's repr of a str is modelled exactly on ASCII strings (None beyond ASCII: printability of a code point is
+   a table of the Unicode database). *)
+Definition c_dquote : N := 34%N.
+Definition c_bslash : N := 92%N.
+Definition hexdig (d : N) : N := if N.ltb d 10 then (48 + d)%N else (87 + d)%N.
+Definition repr_char (q c : N) : str :=
+  if N.eqb c q || N.eqb c c_bslash then [c_bslash; c]
+  else if N.eqb c 9 then [c_bslash; 116%N]
+  else if N.eqb c 10 then [c_bslash; 110%N]
+  else if N.eqb c 13 then [c_bslash; 114%N]
+  else if N.ltb c 32 || N.eqb c 127 then [c_bslash; 120%N; hexdig (N.div c 16); hexdig (N.modulo c 16)]
+  else [c].
+Definition is_ascii (s : str) : bool := forallb (fun c => N.ltb c 128) s.
+Definition has_char (c : N) (s : str) : bool := existsb (N.eqb c) s.
+(* unicode_repr: double quotes only when the string has a single quote and no double quote *)
+Definition py_repr (s : str) : option str :=
+  if is_ascii s then
+    let q := if has_char c_quote s && negb (has_char c_dquote s) then c_dquote else c_quote in
+    Some (q :: flat_map (repr_char q) s ++ [q])
+  else None.
+Definition py_reprs (l : list str) : option (list str) :=
+  fold_right (fun s acc => match py_repr s, acc with Some r, Some a => Some (r :: a) | _, _ => None end) (Some []) l.
+Fixpoint join_comma (l : list str) : str :=
+  match l with
+  | [] => []
+  | [x] => x
+  | x :: r => x ++ [c_comma; 32%N] ++ join_comma r
+  end.
+(* everything up to and including "regexes: " (keys with plain reprs, as in addl_message) *)
+Definition addl_pat_head (extras : list str) : str :=
+  join_reprs extras ++ (if Nat.eqb (List.length extras) 1 then codes " does" else codes " do")
+                    ++ codes " not match any of the regexes: ".
+Definition addl_message_pat (extras pats : list str) : option str :=
+  match py_reprs pats with Some rs => Some (addl_pat_head extras ++ join_comma rs) | None => None end.
+
+Fixpoint prefix_str (p m : str) : bool :=
+  match p, m with
+  | [], _ => true
+  | x :: p', y :: m' => N.eqb x y && prefix_str p' m'
+  | _ :: _, [] => false
+  end.
+
+(* the contract on e.message of an additionalProperties: false error, given the sorted unknown keys (all
+   identifier-like) and the sorted patterns: without patternProperties the message is addl_message; with it, the
+   message starts with addl_pat_head whatever the patterns are, and is exactly addl_message_pat when the patterns are ASCII *)
+Definition addl_msg_ok (spat : bool) (ks pats : list str) (message : str) : bool :=
+  if spat
+  then prefix_str (addl_pat_head ks) message &&
+       match addl_message_pat ks pats with Some m => str_eqb message m | None => true end
+  else str_eqb message (addl_message ks).
+
 (* ------------------------------------------------------------------------------------------------ process_error *)
 Definition is_false (v : json) : bool := match v with JBool false => true | _ => false end.
 
@@ -366,7 +433,7 @@ Definition required_outcome (vv inst : json) : outcome :=
 
 Fixpoint process_error (e : verr) : outcome :=
   match e with
-  | VErr k vv inst sty sprops spat path message ctx =>
+  | VErr k vv inst sty sprops spat spats path message ctx =>
       match k with
       | VAdditional =>
           if is_false vv then Lib (EInvalidKey (hd_error (findall_keys message)) m_unknown_keys)
@@ -423,17 +490,21 @@ Definition size_of (v : json) : option Q :=
 Definition rel2 (f : Q -> Q -> bool) (a b : option Q) : bool :=
   match a, b with Some x, Some y => f x y | _, _ => false end.
 
+Section WfVerr.
+Variable pm : list str -> str -> bool.   (* re.search("|".join(pats), key) is not None: see pat_matched *)
+
 Fixpoint wf_verr (e : verr) : bool :=
   match e with
-  | VErr k vv inst sty sprops spat path message ctx =>
+  | VErr k vv inst sty sprops spat spats path message ctx =>
       match k with
       | VAdditional =>
+          (* raised only `elif not aP and extras`: the validator value is false and there IS an unknown key *)
           is_false vv &&
           match inst with JObj _ => true | _ => false end &&
-          (spat ||
-           (let ex := extras_of inst sprops in
-            match ex with [] => false | _ => true end &&
-            (if forallb ident ex then str_eqb message (addl_message (sort_strs ex)) else true)))
+          (spat || match spats with [] => true | _ => false end) &&
+          (let ex := extras_pat pm inst sprops spats in
+           match ex with [] => false | _ => true end &&
+           (if forallb ident ex then addl_msg_ok spat (sort_strs ex) spats message else true))
       | VType =>
           match sty with
           | Some t => match type_decl t with
@@ -462,6 +533,7 @@ Fixpoint wf_verr (e : verr) : bool :=
       | VOther => true
       end
   end.
+End WfVerr.
 
 (* ------------------------------------------------------------------------------------------------ validate *)
 Inductive result := Silent | Raises (o : outcome).
